@@ -181,11 +181,24 @@ func vC20KMeans(c *vCtx, d, maxLen, part, parts int) {
 // vC20KMeansSweep: structured training sets of EVERY size n in 1..maxN (dimension 3 and
 // 5, duplicates every 7th point), k around the interesting boundaries, three metrics.
 func vC20KMeansSweep(c *vCtx, maxN int) {
+	var sizes []int
+	for n := 1; n <= maxN; n++ {
+		sizes = append(sizes, n)
+	}
+	vC20KMeansSizes(c, sizes, nil)
+	if c.Bound == "" {
+		c.Bound = fmt.Sprintf("kmeans sweep sizes 1..%d", maxN)
+	}
+}
+
+// vC20KMeansSizes runs the k-means laws for the given training-set sizes (ks == nil: the
+// size-dependent k alphabet of the sweep).
+func vC20KMeansSizes(c *vCtx, sizes []int, ks0 []int) {
 	cfgS := "kmeans sweep"
 	for _, d := range []int{3, 5} {
-		for n := 1; n <= maxN; n++ {
-			if n%8 == 0 && c.Expired() {
-				c.Bound = fmt.Sprintf("kmeans sweep sizes 1..%d", n-1)
+		for si, n := range sizes {
+			if si%8 == 0 && c.Expired() {
+				c.Bound = fmt.Sprintf("kmeans sizes: deadline before n=%d", n)
 				return
 			}
 			train := vStructuredVecs(d, n)
@@ -203,6 +216,12 @@ func vC20KMeansSweep(c *vCtx, maxN int) {
 				}
 			}
 			ks := map[int]bool{1: true, 2: true, 3: true, 8: true, 16: true, 17: true, n - 1: true, n: true, n + 1: true, n / 2: true}
+			if ks0 != nil {
+				ks = map[int]bool{}
+				for _, k := range ks0 {
+					ks[k] = true
+				}
+			}
 			for k := range ks {
 				if k <= 0 {
 					continue
@@ -262,8 +281,7 @@ func vC20KMeansSweep(c *vCtx, maxN int) {
 			}
 		}
 	}
-	c.Sample("d in {3,5}, n structured points (every 7th duplicated) for every n, k in {1,2,3,8,16,17,n/2,n-1,n,n+1}, 3 metrics")
-	c.Bound = fmt.Sprintf("kmeans sweep sizes 1..%d", maxN)
+	c.Sample(fmt.Sprintf("d in {3,5}, n structured points (every 7th duplicated), sizes %d..%d (%d of them), k in {1,2,3,8,16,17,n/2,n-1,n,n+1} or the fixed list, 3 metrics", sizes[0], sizes[len(sizes)-1], len(sizes)))
 }
 
 // vC20QuantLengths: every vector length 1..maxL for the three quantisers (unrolled loops).
@@ -676,6 +694,18 @@ func init() {
 				sweepN, qlen = 300, 600
 			}
 			sh = append(sh, vShard{Name: "kmeans/sweep", Run: func(c *vCtx) { vC20KMeansSweep(c, sweepN) }})
+			// large training sets (sampling / chunking thresholds at 256, 1024, 4096, 8192 ...)
+			big := [][]int{{257, 1025}, {4096, 4097}, {5000}}
+			if tier == "thorough" {
+				big = [][]int{{257, 1025}, {4096, 4097}, {5000}, {8193}, {16385}, {20000}}
+			}
+			for _, sz := range big {
+				sz := sz
+				sh = append(sh, vShard{Name: fmt.Sprintf("kmeans/large/%d", sz[0]), Run: func(c *vCtx) {
+					vC20KMeansSizes(c, sz, []int{1, 2, 8, 17})
+					c.Bound = fmt.Sprintf("kmeans sizes %v", sz)
+				}})
+			}
 			sh = append(sh, vShard{Name: "quantizers/lengths", Run: func(c *vCtx) { vC20QuantLengths(c, qlen) }})
 			sh = append(sh, vShard{Name: "train-twice", Run: func(c *vCtx) { vC20TrainTwice(c, tier) }})
 			qd := 5
@@ -698,6 +728,7 @@ func init() {
 				vC20KMeans(c, 2, 3, 0, 1)
 			case v.Config == "kmeans sweep":
 				vC20KMeansSweep(c, 300)
+				vC20KMeansSizes(c, []int{257, 1025, 4096, 4097, 5000, 8193}, []int{1, 2, 8, 17})
 			case v.Config == "quantizer histories":
 				vC20QuantHist(c, len(v.History))
 			case v.Config == "quantizers lengths":
